@@ -22,6 +22,10 @@ CHECKS = {
    text="Exploration: every single cut position of fixed ClientHellos is enumerated, multi-way partitions, interleavings with other flows and the three delivery paths (reader API, per-packet path, real sequential packet loop) are sampled by seed. A clean run shows exactly-once/at-completion/equal-to-one-segment on everything explored; it is not a proof over all hellos.",
    note="Trusts the generator's knowledge of where the record ends (5 + declared length) and the one-segment delivery on a fresh instance as reference; deliveries are kept inside the 20 s flow TTL because the statement does not quantify over time.",
    design="4/C08"),
+ "C17": dict(engine="netsim", technique="deterministic simulation: seeded + enumerated chunkings of generated HTTP/2 connection starts through the incremental extractor; history oracle + reference model of the Akamai format computed from the generator's structure",
+   text="Exploration: frame sequences (settings incl. unknown ids, WINDOW_UPDATE/PRIORITY before and after SETTINGS, HEADERS with PADDED/PRIORITY/CONTINUATION, with/without preface) are drawn by seed; every single cut of fixed short streams is enumerated, multi-way chunkings sampled. Checked: at most one report, on the chunk completing the first SETTINGS frame, equal to the one-shot result on that prefix, and the one-shot result equal to an independent reference model string and SHA-256 prefix.",
+   note="The reference model is 30 lines of harness code over the generator's structure (not over parsed bytes). An empty first SETTINGS frame is treated as unspecified by the statement: only incremental == one-shot is required there.",
+   design="4/C17"),
 }
 
 def main():
